@@ -419,6 +419,31 @@ def selection_eval(prog):
     from urllib.parse import urlsplit
     out = {"handler-first": None, "requests-http-only": None, "urlopen-otherwise": None, "filed": None}
     try:
+        # a registered handler that fails -- with KeyError, LookupError, AttributeError or anything else -- has still been *chosen*: no
+        # other retriever is tried behind its back
+        for exc_name in ("KeyError", "LookupError", "AttributeError", "ImportError", "ValueError"):
+            for uri in ("http://host/doc", "sch://host/doc"):
+                log = []
+
+                def failing(u, log=log, exc_name=exc_name):
+                    log.append(("handler", u))
+                    raise PyRaise(exc_name, "the handler's own failure")
+
+                def urlopen2(u, *a, log=log, **k):
+                    log.append(("urlopen", u))
+                    return _UrlopenResult(b"{}")
+                ev, o, R, st = _resolver(prog, {"http": failing, "sch": failing})
+                ev.ext["requests"] = _Requests(log, {("requests", uri): {"via": "requests"}})
+                ev.ext["urllib.request.urlopen"] = urlopen2
+                ev.ext["urllib.request"] = type("M", (), {"urlopen": staticmethod(urlopen2)})
+                try:
+                    ev.call_func(ev.find_method(R, "resolve_remote"), [o, uri], {})
+                    outcome = "returns normally"
+                except PyRaise as pr:
+                    outcome = pr.name
+                if log != [("handler", uri)] or outcome != exc_name:
+                    out["handler-first"] = out["handler-first"] or ("%s with a handler that raises %s: retrievers asked %r, outcome %s; expected the handler alone and its "
+                                                                    "exception (resolve_from_url wraps it)" % (uri, exc_name, log, outcome))
         uris = {"sch": "sch://host/doc", "http": "http://host/doc", "https": "https://host/doc", "ftp": "ftp://host/doc", "file": "file:///tmp/doc",
                 "HTTP": "HTTP://host/doc", "urn": "urn:example:doc"}
         for hset in ((), ("sch",), ("http",), ("https", "ftp"), ("sch", "http", "https", "ftp", "file", "urn")):
